@@ -69,6 +69,16 @@ func (x *Exec) havoc(e *Env, t types.Type, base string) Value {
 	if isBigIntType(t) {
 		return Scalar{x.fresh(base, IntS), mathIntType}
 	}
+	if types.TypeString(t, nil) == "hash.Hash" {
+		// a hash object of unknown origin: an unknown hash function that has been fed unknown bytes
+		h := HashV{Name: "cryptohash", Fn: x.fresh(base+".fn", IntS), Typ: t}
+		h.Size = App("hashsize", IntS, h.Fn)
+		es := e.R().sortOf(byteT)
+		ln := x.fresh(base+".written", IntS)
+		e.st.assume(Le(IntC(0), ln))
+		h.Chunks = []hchunk{{arr: x.fresh(base+".data", ArrS(es)), off: IntC(0), len: ln}}
+		return h
+	}
 	if as := abstractSort(t); as != nil {
 		return Scalar{x.fresh(base, as), t}
 	}
